@@ -8,6 +8,7 @@ import WhVerif.Lemmas.C19Geno
 import WhVerif.Model.C19Word
 import WhVerif.Lemmas.C19Word
 import WhVerif.Lemmas.C19Ctor
+import WhVerif.Model.C19Heap
 /-!
 # C19 — property theorems
 
@@ -554,5 +555,80 @@ example : (List.replicate 14 15).length ≤ getMaxGenotypePloidyRepaired ∧ ∀
 theorem final_loop_fuel_suffices (g : Genotype) (bound fuel : Nat) (hf : 17 ≤ fuel) :
     checkLoopC g bound fuel 0 = checkLoopC g bound 17 0 :=
   checkLoopC_fuel g bound 16 0 fuel 17 (by omega) (by omega) (by omega)
+
+/-! ## Part 4: several objects alive at once (`Model/C19Heap.lean`): `__deepcopy__` makes a real copy, `__setstate__` changes
+only the object it is called on.  `Genotype` is mutable (`__setstate__` replaces the wrapped C++ object in place), so "state
+save/restore agrees with the index" needs both. -/
+
+/-- **`copy.deepcopy(g)` is a NEW object with the same genotype**: `Genotype.__new__(Genotype, self.as_vector())` appends a
+cell (it does not hand out the old one) and that cell holds exactly the word of `g` (the descending `as_vector()` is sorted
+again by the constructor); all existing cells are untouched. -/
+theorem deepcopy_is_fresh_equal_object (h : Heap) (src : Nat) (l : List Nat) (g : Genotype)
+    (hp : l.length < 15) (ha : ∀ a ∈ l, a < 16) (hg : Genotype.ofAlleles l = .ok g) (hs : h[src]? = some g) :
+    h.deepcopy src = .ok (h ++ [g]) := by
+  obtain ⟨g', h1, _, _, h4⟩ := ofAlleles_ok l hp ha
+  have hgg : g' = g := by rw [hg] at h1; exact (Except.ok.inj h1).symm
+  subst hgg
+  have hperm : ((sortAsc l).reverse).Perm l := (List.reverse_perm _).trans (sortAsc_perm l)
+  unfold Heap.deepcopy
+  rw [hs]
+  simp only []
+  unfold Heap.alloc
+  rw [h4, ofAlleles_perm _ _ hperm, hg]
+
+example : Heap.deepcopy [⟨0x2000000000000001⟩] 0 = Except.ok [⟨0x2000000000000001⟩, ⟨0x2000000000000001⟩] := by decide
+
+/-- **`__setstate__` changes the object it is called on and no other** (frame): the number of objects stays, every other
+cell keeps its word (hence its index, alleles, state, equality), the target holds the restored genotype. -/
+theorem restore_changes_only_its_object (h : Heap) (dst : Nat) (st : Nat × Nat) (h' : Heap)
+    (hr : h.restore dst st = .ok h') :
+    h'.length = h.length ∧ (∀ k, k ≠ dst → h'[k]? = h[k]?) ∧
+      (dst < h.length → ∃ g, Genotype.setState st = .ok g ∧ h'[dst]? = some g) := by
+  unfold Heap.restore at hr
+  split at hr
+  · rename_i g hg
+    have : h' = h.set dst g := (Except.ok.inj hr).symm
+    subst this
+    refine ⟨List.length_set, ?_, ?_⟩
+    · intro k hk
+      exact List.getElem?_set_ne (Ne.symm hk)
+    · intro hd
+      exact ⟨g, hg, by simp [hd]⟩
+  · cases hr
+
+example : Heap.restore [⟨0x2000000000000001⟩, ⟨0x2000000000000001⟩] 1 (2, 2) = Except.ok [⟨0x2000000000000001⟩, ⟨0x2000000000000011⟩] := by decide +kernel
+
+/-- **a scratch deep copy can be overwritten without touching the original**: take `c = copy.deepcopy(g)` and restore the
+saved state of ANY other genotype `m` into `c`.  Then `c` is that genotype, while `g` (and every other object) still has its
+own word, so its index, allele multiset and `__getstate__` are what they were, and the state saved from `g` before still
+restores exactly `g`. -/
+theorem deepcopy_then_restore_leaves_original (h : Heap) (src : Nat) (l m : List Nat) (g : Genotype)
+    (hp : l.length < 15) (ha : ∀ a ∈ l, a < 16) (hg : Genotype.ofAlleles l = .ok g) (hs : h[src]? = some g)
+    (hpm : m.length < 15) (ham : ∀ a ∈ m, a < 16) :
+    ∃ c h1 h2, Genotype.ofAlleles m = .ok c ∧ h.deepcopy src = .ok h1 ∧ h1.restore h.length c.getState = .ok h2 ∧
+      h2.length = h.length + 1 ∧ (∀ k, k < h.length → h2[k]? = h[k]?) ∧ h2[src]? = some g ∧ h2[h.length]? = some c ∧
+      Genotype.setState g.getState = .ok g := by
+  obtain ⟨c, hc, _, hcs⟩ := save_restore m hpm ham
+  obtain ⟨g', hg', _, hgs⟩ := save_restore l hp ha
+  have hgg : g' = g := by rw [hg] at hg'; exact (Except.ok.inj hg').symm
+  subst hgg
+  have hd := deepcopy_is_fresh_equal_object h src l g' hp ha hg hs
+  have hr : (h ++ [g']).restore h.length c.getState = .ok ((h ++ [g']).set h.length c) := by
+    unfold Heap.restore; rw [hcs]
+  have hsrc : src < h.length := by
+    rcases Nat.lt_or_ge src h.length with hlt | hge
+    · exact hlt
+    · rw [List.getElem?_eq_none hge] at hs; cases hs
+  obtain ⟨f1, f2, _⟩ := restore_changes_only_its_object _ _ _ _ hr
+  have keep : ∀ k, k < h.length → ((h ++ [g']).set h.length c)[k]? = h[k]? := by
+    intro k hk
+    rw [f2 k (by omega), List.getElem?_append_left hk]
+  refine ⟨c, h ++ [g'], (h ++ [g']).set h.length c, hc, hd, hr, ?_, keep, ?_, ?_, hgs⟩
+  · rw [f1]; simp
+  · rw [keep src hsrc, hs]
+  · simp
+
+example : ∃ g, Genotype.ofAlleles [1, 0] = .ok g ∧ ([g] : Heap)[0]? = some g ∧ [1, 0].length < 15 ∧ (∀ a ∈ [1, 0], a < 16) ∧
+    [1, 1].length < 15 ∧ ∀ a ∈ [1, 1], a < 16 := ⟨⟨0x2000000000000001⟩, by decide, by decide, by decide, by decide, by decide, by decide⟩
 
 end WhVerif.Props.C19
